@@ -285,6 +285,11 @@ func (p *Packet) SetPayload(data []byte) (int, error) {
 		// the adaptation field claims more bytes than the packet has
 		return 0, gots.ErrInvalidPacketLength
 	}
+	// data may be a window of this very packet (the function-style Payload
+	// accessor returns one): take its bytes before the stuffing is rewritten.
+	// No more than a packet's worth of them can be stored.
+	var own [PacketSize]byte
+	data = own[:copy(own[:], data)]
 	if freeSpace > len(data) {
 		p.SetAdaptationFieldControl(PayloadAndAdaptationFieldFlag)
 		af, _ := p.AdaptationField()
